@@ -61,6 +61,39 @@ def _db_mutations(f: Func) -> List[ast.AST]:
     return out
 
 
+def _rejection_kind(add: Func, t: ast.AST, formula_p: str, smiles_p: str) -> Optional[str]:
+    """'formula' / 'smiles': the test is `any(<rec>[<key>] == <param> for <rec> in self.database)` (either operand
+    order, also `<param> in (<rec>[<key>] for ...)` / a set or list comprehension of the keys);
+    'valid': `not <validity predicate>(<smiles param>)`"""
+    def key_compare(gen_elt, target):
+        if isinstance(gen_elt, ast.Compare) and len(gen_elt.ops) == 1 and isinstance(gen_elt.ops[0], ast.Eq):
+            for a, b in ((gen_elt.left, gen_elt.comparators[0]), (gen_elt.comparators[0], gen_elt.left)):
+                if isinstance(a, ast.Subscript) and isinstance(a.value, ast.Name) and a.value.id == target and isinstance(b, ast.Name):
+                    k = const_str(a.slice)
+                    if k == "formula" and b.id == formula_p:
+                        return "formula"
+                    if k == "smiles" and b.id == smiles_p:
+                        return "smiles"
+        return None
+
+    def over_db(gen):
+        return len(gen.generators) == 1 and unparse(gen.generators[0].iter) == "%s.database" % add.params[0] and isinstance(gen.generators[0].target, ast.Name) and not gen.generators[0].ifs
+
+    if isinstance(t, ast.Call) and getattr(t.func, "id", "") == "any" and t.args and isinstance(t.args[0], (ast.GeneratorExp, ast.ListComp)) and over_db(t.args[0]):
+        return key_compare(t.args[0].elt, t.args[0].generators[0].target.id)
+    if isinstance(t, ast.Compare) and len(t.ops) == 1 and isinstance(t.ops[0], ast.In) and isinstance(t.left, ast.Name):
+        c = t.comparators[0]
+        if isinstance(c, (ast.GeneratorExp, ast.ListComp, ast.SetComp)) and over_db(c) and isinstance(c.elt, ast.Subscript) and isinstance(c.elt.value, ast.Name) and c.elt.value.id == c.generators[0].target.id:
+            k = const_str(c.elt.slice)
+            if k == "formula" and t.left.id == formula_p:
+                return "formula"
+            if k == "smiles" and t.left.id == smiles_p:
+                return "smiles"
+    if isinstance(t, ast.UnaryOp) and isinstance(t.op, ast.Not) and isinstance(t.operand, ast.Call) and t.operand.args and isinstance(t.operand.args[0], ast.Name) and t.operand.args[0].id == smiles_p and "valid" in unparse(t.operand.func).lower():
+        return "valid"
+    return None
+
+
 def check(ctx) -> None:
     prog = ctx.prog
     cls = prog.cls(MGR)
@@ -82,15 +115,7 @@ def check(ctx) -> None:
     for n in own_nodes(add.node):
         if isinstance(n, ast.If) and any(isinstance(x, ast.Raise) for x in n.body):
             t = n.test
-            txt = unparse(t)
-            kind = None
-            if isinstance(t, ast.Call) and getattr(t.func, "id", "") == "any" and "self.database" in txt:
-                if "['formula'] == %s" % formula_p in txt or "%s == d['formula']" % formula_p in txt:
-                    kind = "formula"
-                elif "['smiles'] == %s" % smiles_p in txt:
-                    kind = "smiles"
-            elif isinstance(t, ast.UnaryOp) and isinstance(t.op, ast.Not) and "is_valid_smiles(%s)" % smiles_p in txt:
-                kind = "valid"
+            kind = _rejection_kind(add, t, formula_p, smiles_p)
             if kind:
                 rejections[kind] = n
                 for x in n.body:
